@@ -641,6 +641,7 @@ fn sweep_cross(a: &Args) -> ! {
                     ti.insert_by_range(r, SV { id: 1, exp: 5 });
                     tj.insert_by_range(r, SV { id: 2, exp: 5 });
                     tj.insert_by_range(SegRange { min: dj.0, max: dj.1 }, SV { id: 3, exp: 0 });
+                    tj.insert_by_range(r, SV { id: 6, exp: 0 });
                     let ids = |t: &mut Seg, q: SegRange<i32>| -> Vec<u8> {
                         let mut v: Vec<u8> = t.iter_by_range(q, 1).map(|x| x.id).collect();
                         v.sort();
@@ -659,8 +660,17 @@ fn sweep_cross(a: &Args) -> ! {
                     }
                     if combo & 2 == 0 {
                         let g = ids(&mut tj, r);
-                        if g != want_j {
+                        if g != want_j && on("query") {
                             return Err(("query".into(), format!("second tree (domain [{},{}]) right after the same raw range was used on a tree over [{},{}]: query [{ra},{rb}] at time 1 yielded ids {g:?}, reference says {want_j:?}", dj.0, dj.1, di.0, di.1)));
+                        }
+                        // every list this query has to scan (its cover meets the range's buckets in the second
+                        // tree's own layout) must have lost its expired copies
+                        let (qa, qb) = (bucket(dj, ra as i32), bucket(dj, rb as i32));
+                        for (k, c) in tj.verif_chunks().iter().enumerate() {
+                            let (l, rr) = crate::ssys::ref_cover(k as u32);
+                            if l <= qb && qa <= rr && c.iter().any(|(v, _)| v.exp < 1) {
+                                return Err(("purge".into(), format!("second tree (domain [{},{}]) right after the same raw range was used on a tree over [{},{}]: list {k} had to be scanned by the fully consumed query [{ra},{rb}] at time 1 but still holds a copy with expiration 0", dj.0, dj.1, di.0, di.1)));
+                            }
                         }
                     } else {
                         tj.insert_by_range(r, SV { id: 5, exp: 7 });
